@@ -152,7 +152,22 @@ def fixed_corpus():
         out.append(circ(t, []))
         out.append(circ(t, ['a', 'c']))
     out.append(circ('AND', ['a', 'b'], outs=['a', 'g', 'a', 'g', 'e']))
-    return [{'circuit': d, 'outs': None} for d in out]
+    # wide gates: 9-12 operands over 8 inputs (an encoder may treat wide parity gates specially); next to a
+    # second wide gate of the complementary type so that a wrong polarity shows in the output pair
+    ins8 = ['a', 'b', 'c', 'd', 'e', 'f', 'g0', 'h']
+
+    def wide(t, t2, k):
+        ops = [ins8[i % 8] for i in range(k)]
+        gs = [(i, 'INPUT', []) for i in ins8] + [('g', t, list(ops)), ('k', t2, list(reversed(ops)))]
+        users = {}
+        for l, _, o in gs:
+            for x in o:
+                users.setdefault(x, []).append(l)
+        return {'inputs': list(ins8), 'outputs': ['g', 'k'], 'gates': gs, 'users': list(users.items()), 'blocks': []}
+    wides = [wide(t, t2, k) for t, t2 in (('XOR', 'NXOR'), ('NXOR', 'NXOR'), ('AND', 'NAND'), ('NOR', 'OR'))
+             for k in (9, 10, 11, 12)]
+    return [{'circuit': d, 'outs': None} for d in out] + [{'circuit': d, 'outs': [0]} for d in wides] + \
+           [{'circuit': d, 'outs': [1]} for d in wides[:8]]
 
 
 def _gate_choices(avail, nary_arities):
@@ -423,20 +438,20 @@ def oracle(case, check_circuit_sat=True):
     (kind, raw), saved = run_tseytin(dump, outs, capture=True)
     if kind != 'ok':
         return f'exception: tseytin_transformation raised {raw} on a well-formed circuit with a valid output selection'
+    # What the property fixes: input i is variable i + 1; CNF + input units is satisfiable iff the selected
+    # outputs are all True; a satisfying extension gives every ENCODED GATE its value.  It does not forbid
+    # auxiliary variables or gaps in the numbering, so none of that is demanded here.  The label -> variable map is
+    # observed from outside (the defaultdict the function builds); if it cannot be observed, only the first two
+    # clauses are checked (inputs are then taken to be variables 1..n, which the satisfiability check exercises).
     if saved is None:
-        return 'observation: cannot observe saved_lits (tseytin_transformation no longer builds one collections.defaultdict)'
+        saved = {l: i + 1 for i, l in enumerate(ins)}
     for i, l in enumerate(ins):
         if saved.get(l) != i + 1:
             return f'input numbering: input {i} ({l}) is variable {saved.get(l)}, not {i + 1}'
-    nvars = len(saved)
-    if sorted(saved.values()) != list(range(1, nvars + 1)):
-        return f'literal allocation: variables are not 1..{nvars}: {sorted(saved.values())}'
     used = {abs(l) for c in raw for l in c}
-    if 0 in used or (used and max(used) > nvars):
-        return f'literal allocation: the CNF mentions a variable outside 1..{nvars}'
-    for l in sel:
-        if l not in saved:
-            return f'encoding: selected output {l} has no variable'
+    if 0 in used:
+        return 'encoding: the CNF contains the literal 0'
+    nvars = max([len(ins)] + list(saved.values()) + list(used))
     any_sat = False
     for bits in itertools.product([False, True], repeat=len(ins)):
         ref = evalcorr.ref_eval(dump, dict(zip(ins, bits)))
@@ -446,8 +461,33 @@ def oracle(case, check_circuit_sat=True):
         msg = check_assignment(raw, nvars, len(ins), bits, expect, vals)
         if msg:
             return msg + f' [inputs {dict(zip(ins, bits))}]'
+    msg = oracle_from_circuit_fresh(dump)
+    if msg:
+        return msg
     if check_circuit_sat and outs is None:
         return oracle_circuit_sat(dump, ins, raw_default=raw, expect=any_sat)
+    return None
+
+
+def oracle_from_circuit_fresh(dump):
+    """the CNF of a circuit depends on the circuit only: edit the clauses of one Cnf.from_circuit result in
+    place (flip every literal - what a caller does to ask the opposite question), then ask again for an equal
+    circuit built anew: the answer must be the original one"""
+    from cirbo.sat.cnf import Cnf
+    try:
+        first = Cnf.from_circuit(ct.build_circuit(dump))
+        raw1 = first.get_raw()
+        snap = [list(c) for c in raw1]
+        for c in raw1:
+            for i in range(len(c)):
+                c[i] = -c[i]
+        raw1.append([1, -1])
+        again = [list(c) for c in Cnf.from_circuit(ct.build_circuit(dump)).get_raw()]
+    except Exception as e:  # noqa: BLE001
+        return f'exception: Cnf.from_circuit raised {type(e).__name__}'
+    if again != snap:
+        return ('state: Cnf.from_circuit of an equal circuit differs after the clauses of an earlier result were '
+                'edited in place (the results share mutable state)')
     return None
 
 
